@@ -1,5 +1,189 @@
-//! Independent reference implementations of the built-in functions (C18). Filled in by c18.
+//! Independent reference implementations of the built-in functions (C18), written from
+//! docs/FUNCTIONS.md with std string methods, a hand-written percent decoder and serde_json.
+//! [pin] marks behaviour the documentation leaves open and the pinned commit fixes.
 use crate::refsem::QR;
-pub fn call(f: &str, _args: &[Vec<QR>]) -> Result<Vec<QR>, String> {
-    Err(format!("function {} not modelled here", f))
+use crate::val::V;
+
+fn strings_map(args: &[QR], f: impl Fn(&str) -> Result<Option<V>, String>) -> Result<Vec<QR>, String> {
+    let mut out = vec![];
+    for a in args {
+        if let QR::R(V::Str(s)) = a {
+            if let Some(v) = f(s)? {
+                out.push(QR::R(v));
+            }
+        }
+        // values of unsupported type and unresolved values are skipped
+    }
+    Ok(out)
+}
+
+pub fn percent_decode(s: &str) -> Option<String> {
+    let b = s.as_bytes();
+    let mut out: Vec<u8> = Vec::with_capacity(b.len());
+    let hex = |c: u8| -> Option<u8> {
+        match c {
+            b'0'..=b'9' => Some(c - b'0'),
+            b'a'..=b'f' => Some(c - b'a' + 10),
+            b'A'..=b'F' => Some(c - b'A' + 10),
+            _ => None,
+        }
+    };
+    let mut i = 0;
+    while i < b.len() {
+        if b[i] == b'%' && i + 2 < b.len() {
+            if let (Some(h), Some(l)) = (hex(b[i + 1]), hex(b[i + 2])) {
+                out.push(h * 16 + l);
+                i += 3;
+                continue;
+            }
+        }
+        out.push(b[i]);
+        i += 1;
+    }
+    String::from_utf8(out).ok()
+}
+
+fn first_scalar<'a>(args: &'a [QR]) -> Option<&'a V> {
+    match args.first() {
+        Some(QR::R(v)) => Some(v),
+        _ => None,
+    }
+}
+
+pub fn regex_replace_ref(s: &str, pat: &str, rep: &str) -> Option<String> {
+    // [pin] the result is the concatenation of the replacement for every match (text between matches is dropped)
+    let n = s.chars().count();
+    let mut out = String::new();
+    let mut from = 0;
+    let mut last_end: Option<usize> = None;
+    loop {
+        match crate::mre::find_from(pat, s, from)? {
+            None => break,
+            Some((st, en)) => {
+                // standard iteration: an empty match directly at the end of the previous match is not a match
+                if en == st && last_end == Some(st) {
+                    from = st + 1;
+                    if from > n {
+                        break;
+                    }
+                    continue;
+                }
+                out.push_str(rep);
+                last_end = Some(en);
+                from = if en > st { en } else { en + 1 };
+                if from > n {
+                    break;
+                }
+            }
+        }
+    }
+    Some(out)
+}
+
+pub fn call(f: &str, args: &[Vec<QR>]) -> Result<Vec<QR>, String> {
+    let a0: &[QR] = args.first().map(|v| v.as_slice()).unwrap_or(&[]);
+    match f {
+        "count" => Ok(vec![QR::R(V::Int(a0.iter().filter(|x| matches!(x, QR::R(_))).count() as i64))]),
+        "to_upper" => strings_map(a0, |s| Ok(Some(V::Str(s.to_uppercase())))),
+        "to_lower" => strings_map(a0, |s| Ok(Some(V::Str(s.to_lowercase())))),
+        "url_decode" => strings_map(a0, |s| Ok(percent_decode(s).map(V::Str))),
+        "json_parse" => strings_map(a0, |s| match serde_json::from_str::<serde_json::Value>(s) {
+            Ok(j) => Ok(Some(V::from_json_value(&j))),
+            Err(e) => Err(format!("not JSON: {}", e)),
+        }),
+        "substring" => {
+            let idx = |k: usize| -> Result<usize, String> {
+                match args.get(k).and_then(|a| first_scalar(a)) {
+                    Some(V::Int(n)) => Ok((*n as u16) as usize),
+                    Some(V::Float(x)) => Ok((*x as u16) as usize),
+                    _ => Err("substring index is not a number".into()),
+                }
+            };
+            let (i, j) = (idx(1)?, idx(2)?);
+            strings_map(a0, |s| {
+                if !s.is_ascii() {
+                    return Err("non-ascii".into()); // outside the documented domain: callers do not compare
+                }
+                if !s.is_empty() && i < j && j <= s.len() {
+                    Ok(Some(V::Str(s[i..j].to_string())))
+                } else {
+                    Ok(None)
+                }
+            })
+        }
+        "join" => {
+            let d = match args.get(1).and_then(|a| first_scalar(a)) {
+                Some(V::Str(s)) => s.clone(),
+                _ => return Err("join delimiter must be a string".into()),
+            };
+            let mut parts = vec![];
+            for a in a0 {
+                match a {
+                    QR::R(V::Str(s)) => parts.push(s.clone()),
+                    _ => return Err("join of a non-string / unresolved value".into()),
+                }
+            }
+            Ok(vec![QR::R(V::Str(parts.join(&d)))])
+        }
+        "regex_replace" => {
+            let (p, r) = match (args.get(1).and_then(|a| first_scalar(a)), args.get(2).and_then(|a| first_scalar(a))) {
+                (Some(V::Str(p)), Some(V::Str(r))) => (p.clone(), r.clone()),
+                _ => return Err("regex_replace needs string arguments".into()),
+            };
+            strings_map(a0, |s| regex_replace_ref(s, &p, &r).map(|x| Some(V::Str(x))).ok_or_else(|| "unsupported pattern".to_string()))
+        }
+        "parse_int" => {
+            let mut out = vec![];
+            for a in a0 {
+                match a {
+                    QR::R(V::Str(s)) => out.push(QR::R(V::Int(s.parse::<i64>().map_err(|_| format!("cannot parse {} as int", s))?))),
+                    QR::R(V::Int(n)) => out.push(QR::R(V::Int(*n))),
+                    QR::R(V::Float(x)) => out.push(QR::R(V::Int(x.trunc() as i64))),
+                    _ => {}
+                }
+            }
+            Ok(out)
+        }
+        "parse_float" => {
+            let mut out = vec![];
+            for a in a0 {
+                match a {
+                    QR::R(V::Str(s)) => out.push(QR::R(V::Float(s.parse::<f64>().map_err(|_| format!("cannot parse {} as float", s))?))),
+                    QR::R(V::Int(n)) => out.push(QR::R(V::Float(*n as f64))),
+                    QR::R(V::Float(x)) => out.push(QR::R(V::Float(*x))),
+                    _ => {}
+                }
+            }
+            Ok(out)
+        }
+        "parse_boolean" => {
+            let mut out = vec![];
+            for a in a0 {
+                match a {
+                    QR::R(V::Str(s)) => match s.to_lowercase().as_str() {
+                        "true" => out.push(QR::R(V::Bool(true))),
+                        "false" => out.push(QR::R(V::Bool(false))),
+                        _ => return Err(format!("cannot parse {} as boolean", s)),
+                    },
+                    QR::R(V::Bool(b)) => out.push(QR::R(V::Bool(*b))),
+                    _ => {}
+                }
+            }
+            Ok(out)
+        }
+        "parse_string" => {
+            let mut out = vec![];
+            for a in a0 {
+                match a {
+                    QR::R(V::Str(s)) => out.push(QR::R(V::Str(s.clone()))),
+                    QR::R(V::Int(n)) => out.push(QR::R(V::Str(n.to_string()))),
+                    QR::R(V::Float(x)) => out.push(QR::R(V::Str(format!("{}", x)))),
+                    QR::R(V::Bool(b)) => out.push(QR::R(V::Str(b.to_string()))),
+                    _ => {}
+                }
+            }
+            Ok(out)
+        }
+        _ => Err(format!("function {} not modelled", f)),
+    }
 }
